@@ -50,6 +50,31 @@ func NewStore(kind int) factstore.FactStore {
 	panic("store kind")
 }
 
+// NewStoreWith is NewStore with base facts already in it. For the layered
+// kinds the facts go where an application would have them: into the
+// read-only store of a merged store and into the base of a teeing store.
+func NewStoreWith(kind int, base []ast.Atom) factstore.FactStore {
+	switch kind {
+	case StoreMerged:
+		ro := factstore.NewSimpleInMemoryStore()
+		for _, a := range base {
+			ro.Add(a)
+		}
+		return factstore.NewMergedStore([]factstore.ReadOnlyFactStore{ro}, factstore.NewSimpleInMemoryStore())
+	case StoreTeeing:
+		b := factstore.NewSimpleInMemoryStore()
+		for _, a := range base {
+			b.Add(a)
+		}
+		return factstore.NewTeeingStore(b)
+	}
+	s := NewStore(kind)
+	for _, a := range base {
+		s.Add(a)
+	}
+	return s
+}
+
 // ToConst converts a reference value to a mangle constant.
 func ToConst(v Val) ast.Constant {
 	switch v.K {
